@@ -40,6 +40,7 @@ static int reader_inside = 0, merge_inside = 0;
 static long steps = 0;
 static std::vector<long> pct_points;
 static double pct_low = 0;
+static int dfs_preemptions = 0;
 static std::map<long, int> evaluated;
 std::function<void(const Result &)> on_deadlock;
 static const size_t TRACE_CAP = 50000;
@@ -93,6 +94,26 @@ static int choose(int me) {
         std::vector<int> o;
         for (int i : en) if (i != cfg.starve_slot) o.push_back(i);
         pick = o.empty() ? en[0] : o[rng.next() % o.size()];
+        break;
+      }
+      case DFS_REPLAY: {
+        // admissible alternatives: all enabled threads, or (preemption bound exhausted) only the running thread if it
+        // is still enabled
+        std::vector<int> adm = en;
+        bool me_en = false;
+        for (int i : en) if (i == me) me_en = true;
+        if (cfg.preemption_bound >= 0 && dfs_preemptions >= cfg.preemption_bound && me_en) adm = {me};
+        else if (me_en) {  // running thread first: index 0 = "no preemption"
+          adm.clear(); adm.push_back(me);
+          for (int i : en) if (i != me) adm.push_back(i);
+        }
+        size_t k = res.choice_index.size();
+        int idx = k < cfg.prefix.size() ? cfg.prefix[k] : 0;
+        if (idx >= (int)adm.size()) idx = 0;
+        pick = adm[idx];
+        if (me_en && pick != me) ++dfs_preemptions;
+        res.choice_index.push_back(idx);
+        res.choice_count.push_back((int)adm.size());
         break;
       }
       default: pick = en[rng.next() % en.size()];
@@ -194,6 +215,7 @@ void begin(const Config &c) {
   current = 0;
   pct_points.clear();
   pct_low = 0;
+  dfs_preemptions = 0;
   if (c.strategy == PCT)
     for (int i = 0; i < c.pct_depth; ++i) pct_points.push_back(rng.range(1, 40 + 30 * (long)c.expect_frames.size()));
   armed = true;
